@@ -19,6 +19,7 @@ The full statement without the guard is false: Witness/F105i.lean.
 -/
 import VaxisModel.Model.EmuDcs
 import VaxisModel.Lemmas.EmuSafe2
+import VaxisModel.Props.C05
 
 namespace VaxisModel.Props.C05Payload
 open VaxisModel.Model.Emu VaxisModel.Lemmas.Emu VaxisModel.Gen.TermModes
@@ -118,6 +119,26 @@ theorem osc_state (e : Emu) (payload : List Nat) (info : OscInfo) (r : Emu × Na
     | (cases h; exact Or.inr ⟨_, _, rfl⟩)
     | (simp_all; done)
     | (simp_all; subst h; exact Or.inl rfl)
+
+/-! ### what the safety theorem needs from the parameters of the model -/
+
+/-- Precisely what `emu_safe_step` needs from the inputs the model does not compute itself:
+    * grapheme segmentation / width (uniseg): NOTHING beyond `Width ≥ 0` (`w : Nat`) — any bytes, any
+      width incl. 0 and wider than the screen;
+    * CSI parameters (parser): every parameter has a first value (structural in `Param`) — any values;
+    * base64 (OSC 52): NOTHING — either verdict;
+    * the sixel decoder: `DecoderTame`.
+    The harness checks the three hypotheses on the real parser / decoder at run time
+    (`hyp-ok:*` / `hyp-VIOLATED:*` / `dcs:DECODER-CRASH-WITHIN-LIMIT` counters, note
+    `hypothesis_violations`). -/
+theorem parameters_needed (dec : List Nat → DecOutcome) (tame : DecoderTame dec)
+    {e : Emu} {rows cols : Nat} (h : EmuInv e rows cols) (d : Dim rows cols) :
+    (∀ (g : G) (w : Nat), Safe rows cols (print Fixes.current e g w)) ∧
+    (∀ (label : List Nat) (pm : List Param), Safe rows cols (csi Fixes.current e label pm)) ∧
+    (∀ (payload : List Nat) (info : OscInfo), ∃ r, osc Fixes.current e payload info = .ok r ∧ EmuInv r.1 rows cols) ∧
+    (∀ di : DcsInfo, di.dec = dec di.data → ∃ e', dcs e di = .ok e' ∧ EmuInv e' rows cols) :=
+  ⟨fun g w => print_safe h d g w, fun l pm => VaxisModel.Props.C05.csi_safe h d l pm,
+   fun p i => osc_safe h p i, fun di hd => dcs_keeps_inv dec tame h di hd⟩
 
 /-- APC posts one event and leaves the state alone. -/
 theorem apc_step (e : Emu) : emuStep e .apc = .ok (e, 1) := rfl
